@@ -388,6 +388,23 @@ def _isnum(x):
     return t is SymInt or t is _int or t is _float or t is bool or t is SymBool or _isinstance(x, (_int, _float))
 
 
+def with_bounds(x, lo, hi):
+    """x re-expressed as an atom with the interval [lo, hi].  Only to be called
+    right after decisions on the current path that imply lo <= x <= hi (the
+    caller's obligation); the atom's z3 term is x itself, so no constraint is
+    added or lost."""
+    if type(x) is not SymInt:
+        return x
+    key = ("bnd", tuple(sorted(x.lin.items())), x.c, lo, hi)
+    lin, c = x.lin, x.c
+    a = ENG.opaque(key, lambda: ENG.z3_of(lin, c), x.v, lo, hi, x.isf)
+    name = next(iter(a.lin))
+    b = ENG.pb[name]
+    b[0] = lo if b[0] is None else max(b[0], lo)
+    b[1] = hi if b[1] is None else min(b[1], hi)
+    return a
+
+
 def realise(x):
     """fork on every value of a small-domain symbolic integer"""
     if type(x) is SymInt:
